@@ -168,6 +168,10 @@ class FaultServiceImpl:
         header = None
         if kind.endswith("_h") and init != "nohdr":
             header = Hdr(tag=tag, label=f"hdr-{tag}")
+        if init == "xhdr" and not kind.endswith("_h"):
+            # a header-less method whose implementation nevertheless sets Stream.header (e.g. a helper shared with a
+            # header-declaring sibling): the undeclared header is simply not part of this method's wire contract
+            header = Hdr(tag=tag, label=f"undeclared-{tag}")
         if producer:
             return Stream(output_schema=OUT_SCHEMA, state=state, header=header)
         return Stream(output_schema=OUT_SCHEMA, state=state, input_schema=IN_SCHEMA, header=header)
